@@ -108,7 +108,11 @@ Inductive oop :=
 
 Definition sky_roundtrip (order : list denom) (s : ost) : ost :=
   let pairs := exported_pairs order (o_d2e s) in
-  MkO (o_admin s) (rev (map (fun x => (snd x, fst x)) pairs)) (rev pairs) (o_pend s) (o_esc s) (o_next s).
+  (* since the fix 7a9c7932 the export also lists the reverse entries of contracts that no denom
+     points to any more (a denom re-bound to another contract): they are imported first and survive;
+     the current ones win for their contract *)
+  let stale := filter (fun x => negb (existsb (Z.eqb (fst x)) (map snd pairs))) (o_e2d s) in
+  MkO (o_admin s) (rev (map (fun x => (snd x, fst x)) pairs) ++ stale) (rev pairs) (o_pend s) (o_esc s) (o_next s).
 
 Definition remove_tx (tx : Z) (l : list (Z * (Z * Z))) : list (Z * (Z * Z)) :=
   filter (fun x => negb (fst x =? tx)) l.
